@@ -262,12 +262,18 @@ def run(R):
         R.eq(const_val(b.origin(hdr[1]['args'][1])), spec('wire')['timeout_header'], 'C09.R2', 'header-name', site(b, hdr[0]), 'header looked up')
         # by feasible path: the unit string the path matched and the value returned at its end (phis resolved along the path) — the
         # same table whether the unit selects the constructor directly or through an intermediate enum / helper
-        rows = mirlib.path_rows(b, stop=set(writers_of(b, 0)))
+        meta2 = {}
+        rows = mirlib.path_rows(b, stop=set(writers_of(b, 0)), meta=meta2)
         default_ok = None
         for cons, path in rows:
             bb = path[-1]
             unit = [v for k, op, v in cons if op == '==' and isinstance(v, str) and len(v) == 1]
             refused = {v for k, op, v in cons if op == '!=' and isinstance(v, str) and len(v) == 1}
+            # the unit tested as a byte of the header value (`value.as_bytes().split_last()` and a match on b'H'..): same table
+            is_unit_byte = lambda k_, v_: isinstance(v_, int) and not isinstance(v_, bool) and 0x20 <= v_ < 0x7f and not k_.startswith(('discr(', 'len(', 'Gt(', 'Lt(', 'Ge(', 'Le(')) and mentions_call(meta2.get('__terms__', {}).get(k_), pat='HeaderMap', name='get')
+            unit += [chr(v) for k, op, v in cons if op == '==' and is_unit_byte(k, v)]
+            refused |= {chr(v) for k, op, v in cons if op == '!=' and is_unit_byte(k, v)}
+            refused |= {chr(x) for k, op, v in cons if op == 'notin' and isinstance(v, tuple) for x in v if is_unit_byte(k, x)}
             val = strip_refs(mirlib.simplify(b.ret_on_path(path)))
             if is_call(val, name='from_residual'):
                 continue  # `?` on a failure: an Err row that is not the unknown-unit default
@@ -397,6 +403,9 @@ def run(R):
                 arr_ = strip_refs(src_[2][0]) if is_call(src_, name='into_iter') else None
                 if arr_ and arr_[0] == 'agg' and arr_[1].get('kind') == 'array':
                     return 'minset:' + ','.join(sorted(classify(e_) for e_ in arr_[2]))
+            # a.or(b): a when it is Some, else b (std semantics of Option::or)
+            if is_call(v, name='or') and 'Option' in v[1] and len(v[2]) == 2:
+                return 'or:%s|%s' % (classify(v[2][0]), classify(v[2][1]))
             if v[0] == 'agg' and v[1].get('variant') == 'Some':
                 x = strip_refs(v[2][0])
                 if is_call(x) and x[3] == 'min' and mentions_parse(x) and mentions_server(x):
@@ -437,6 +446,10 @@ def run(R):
                         eff_v = 'h' if c_ else 'None'
                     elif val == 'server-opt':
                         eff_v = 's' if s_ else 'None'
+                    elif val.startswith('or:') and val.count('|') == 1:
+                        ev_ = lambda e_: ('h' if c_ else 'None') if e_ == 'client-opt' else ('s' if s_ else 'None') if e_ == 'server-opt' else e_
+                        a_, b_ = [ev_(e_) for e_ in val[3:].split('|')]
+                        eff_v = a_ if a_ != 'None' else b_
                     table.setdefault((c_, s_), set()).add(eff_v)
         want = {(0, 0): 'None', (1, 0): 'h', (0, 1): 's', (1, 1): 'min(h,s)'}
         for k, v in want.items():
